@@ -4,6 +4,7 @@
   between what was given (with the mode of every item) and what the decoder reads.
 -/
 import QV.Proofs.WriterWalk
+import QV.Proofs.WriterAudit
 
 namespace QV.Writer
 open QV QV.Wire QV.Spec QV.ServerSafety
@@ -295,6 +296,7 @@ theorem segment_from_new (macFn : Tsig → List UInt8 → List UInt8) (hmac : Ma
       aF.hdr = d.msg.header ∧ aF.hdr.z = 0 ∧ m.size ≤ aF.limit ∧
       AbsCfg (run { w := { s0 with mode := mode } } ops).1.w aF ∧
       aF.mode = Driver.toSpecMode (run { w := { s0 with mode := mode } } ops).1.w.mode ∧
+      Message.auditPointers d aF.itemModes.reverse aF.mode = .ok () ∧
       (let modes := aF.itemModes.reverse
        let qs := aF.questions.reverse
        let nq := qs.length
@@ -324,7 +326,21 @@ theorem segment_from_new (macFn : Tsig → List UInt8 → List UInt8) (hmac : Ma
   obtain ⟨d', hd', hcl⟩ := segment_content macFn _ _ _ aF hIR hLR hT hC hG hAF.mode m mac hf hsz
   rw [hd] at hd'
   cases hd'
-  exact ⟨m, mac, d, aF, hf, hd, hw, hh, hz, hlimit, hG, hAF.mode, hcl⟩
+  have hst : ∀ r ∈ (bodyRun {} ops (run { w := { s0 with mode := mode } } ops).2).an ++
+      (bodyRun {} ops (run { w := { s0 with mode := mode } } ops).2).ns ++
+      (bodyRun {} ops (run { w := { s0 with mode := mode } } ops).2).ar, LayoutStable r := by
+    intro r hx
+    have hr : r.Typed := by
+      rcases List.mem_append.mp hx with h1 | h1
+      · rcases List.mem_append.mp h1 with h2 | h2
+        · exact hT.an r h2
+        · exact hT.ns r h2
+      · exact hT.ar r h1
+    exact layoutStable_of_lt hr.2.1 hr.2.2.1
+  obtain ⟨d2, hd2, haud⟩ := segment_audit macFn _ _ _ aF hIR hLR hst hC.modes hAF.mode m mac hf hsz
+  rw [hd] at hd2
+  cases hd2
+  exact ⟨m, mac, d, aF, hf, hd, hw, hh, hz, hlimit, hG, hAF.mode, haud, hcl⟩
 
 
 /-! ### the TSIG record -/
@@ -464,12 +480,13 @@ theorem segment_reduces_to_audit (macFn : Tsig → List UInt8 → List UInt8) (h
           { mode := Driver.toSpecMode mode, buflen := buf.size, limit := min limit buf.size }
           (ops.map Driver.toSpecOp)
           (obs { w := { s0 with mode := mode } } ops ++ ["ok"]) [m] (some d) mac' =
-        Message.auditPointers d aF.itemModes.reverse aF.mode := by
-  obtain ⟨m, mac, d, aF, hf, hd, hw, hh, hz, hlimit, hG, hmode, hq1, hq2, ha, hn, ds, tl, hadd, har, htl⟩ :=
+        Message.auditPointers d aF.itemModes.reverse aF.mode ∧
+      Message.auditPointers d aF.itemModes.reverse aF.mode = .ok () := by
+  obtain ⟨m, mac, d, aF, hf, hd, hw, hh, hz, hlimit, hG, hmode, haud, hq1, hq2, ha, hn, ds, tl, hadd, har, htl⟩ :=
     segment_from_new macFn hmac buf limit s0 hnew hlim mode ops ht hb hr hv hno mac'
   have hI0 : I { s0 with mode := mode } := (safe_setMode mode s0 (new_i buf limit s0 hnew)).2
   have hIR := (run_I { w := { s0 with mode := mode } } ops hI0 hr).2
-  refine ⟨m, mac, d, aF, hf, hd, ?_⟩
+  refine ⟨m, mac, d, aF, hf, hd, ?_, haud⟩
   rw [hw]
   refine checkSegment_eq aF d m.size mac' _ _ _ rfl hh.symm hz hq1 hq2 ha hn ?_ hlimit
   generalize (run { w := { s0 with mode := mode } } ops).1.w = sR at hf hG hmode htl hIR hml hmac'
@@ -494,5 +511,62 @@ theorem segment_reduces_to_audit (macFn : Tsig → List UInt8 → List UInt8) (h
       refine ⟨ds, _, hadd, har, ?_⟩
       rw [hmode]
       exact tsigRecordOk_of sR.mode ts mac _ (hIR.tsig ts hts).2.1 hr1 (hml m mac ts hf hts) mac' (hmac' m mac hf)
+
+/-- **the final check of a segment passes**, from any writer state `sR` that the abstract state `aF`
+    describes: `checkSegment` on the decoded message `finish` returns is `ok` — header, questions
+    and records by item mode, OPT, TSIG (MAC of the algorithm's size; compared with `mac'` if
+    given), size and the pointer audit -/
+theorem segment_check_ok {P : CMode → Prop} (macFn : Tsig → List UInt8 → List UInt8) (sR : State) (B : Body)
+    (MB : MBody) (aF : Message.AState) (hIR : I sR) (hLR : CLay P sR B MB) (hT : B.Typed)
+    (hA : AbsNum sR aF) (hh : aF.hdr = specHeader sR.octets) (hz : aF.hdr.z = 0)
+    (hC : AbsContent aF B MB) (hG : AbsCfg sR aF)
+    (m : Bytes) (mac : Option (List UInt8)) (hf : finish sR macFn = .ok (m, mac)) (hsz : m.size ≤ 65535)
+    (hml : ∀ ts, sR.tsig = some ts → (mac.getD []).length = (toATsig ts).macLen)
+    (mac' : Option (List UInt8)) (hmac' : mac' = none ∨ mac' = some (mac.getD [])) :
+    ∃ d : Message.Decoded, Message.specDecodeMsg m = some d ∧
+      Message.checkSegment false aF d m.size mac' = .ok () := by
+  have hst : ∀ r ∈ B.an ++ B.ns ++ B.ar, LayoutStable r := by
+    intro r hx
+    have hr : r.Typed := by
+      rcases List.mem_append.mp hx with h1 | h1
+      · rcases List.mem_append.mp h1 with h2 | h2
+        · exact hT.an r h2
+        · exact hT.ns r h2
+      · exact hT.ar r h1
+    exact layoutStable_of_lt hr.2.1 hr.2.2.1
+  obtain ⟨d, hd, hq1, hq2, ha, hn, ds, tl, hadd, har, htl⟩ :=
+    segment_content macFn sR B MB aF hIR hLR hT hC hG hA.mode m mac hf hsz
+  obtain ⟨d2, hd2, haud⟩ := segment_audit macFn sR B MB aF hIR hLR hst hC.modes hA.mode m mac hf hsz
+  rw [hd] at hd2
+  cases hd2
+  obtain ⟨d3, _, _, _, _, hd3, hh3, _⟩ := finish_refines macFn sR B MB hIR hLR hst m mac hf hsz
+  rw [hd] at hd3
+  cases hd3
+  have hlimit : m.size ≤ aF.limit := by
+    rw [hA.lim]; exact finish_size_le_limit macFn _ hIR.inv m mac hf
+  refine ⟨d, hd, ?_⟩
+  rw [← haud]
+  refine checkSegment_eq aF d m.size mac' _ _ _ rfl (by rw [hh3, hh]) hz hq1 hq2 ha hn ?_ hlimit
+  have hat := hG.tsig
+  cases hts : sR.tsig with
+  | none =>
+    rw [hts] at hat htl
+    simp only [Option.map_none] at hat
+    rw [hat]
+    simp only [tsigRecs] at htl ⊢
+    cases htl
+    rw [hadd, List.append_nil]
+    exact har
+  | some ts =>
+    rw [hts] at hat htl
+    simp only [Option.map_some] at hat
+    rw [hat]
+    simp only [tsigRecs] at htl ⊢
+    cases htl with
+    | cons hr1 hnil =>
+      cases hnil
+      refine ⟨ds, _, hadd, har, ?_⟩
+      rw [hA.mode]
+      exact tsigRecordOk_of sR.mode ts mac _ (hIR.tsig ts hts).2.1 hr1 (hml ts hts) mac' hmac'
 
 end QV.Writer
